@@ -147,6 +147,33 @@ def key_path(curve: str, role: str, pub: bool = False) -> str:
     return os.path.join(GOLDEN, "keys", "ec", f"{curve}_{role}.{'pub' if pub else 'pem'}")
 
 
+def flaky_sp(inner, failures: int, counter: dict):
+    """A signature provider (public plug-in interface) whose signing service cannot be reached for the first requests."""
+    from spsdk.crypto.signature_provider import SignatureProvider
+
+    class VerifFlakySP(SignatureProvider):
+        identifier = "verif_flaky_link"
+
+        def __init__(self) -> None:
+            self.remaining = failures
+
+        def sign(self, data: bytes) -> bytes:
+            if self.remaining:
+                self.remaining -= 1
+                counter["n"] = counter.get("n", 0) + 1
+                raise S.SPSDKError("signing service is not reachable")
+            return inner.sign(data)
+
+        @property
+        def signature_length(self) -> int:
+            return inner.signature_length
+
+        def verify_public_key(self, public_key) -> bool:
+            return inner.verify_public_key(public_key)
+
+    return VerifFlakySP()
+
+
 def root_role(ks: dict, i: int) -> str:
     """Root i of the key set: one of the four ordinary roots, or a root whose X (rootz) or Y (rooty) coordinate starts
     with a zero byte (about one key in 128 does)."""
@@ -168,6 +195,9 @@ def pub_xy(path: str) -> bytes:
 
 
 def gen_bytes(seed: int, n: int) -> bytes:
+    if seed % 9 == 0 and n >= 300:
+        # an image with long runs of filler: whole 256-byte chunks of the command stream are equal
+        return bytes([0xFF if seed % 2 else (seed >> 8) & 0xFF]) * n
     out = bytearray()
     i = 0
     while len(out) < n:
@@ -451,9 +481,13 @@ class Run:
         roots_pub = [open(key_path(curve, root_role(ks, i), pub=True), "rb").read() for i in range(ks["nroots"])]
         self.roots_xy = [pub_xy(key_path(curve, root_role(ks, i), pub=True)) for i in range(ks["nroots"])]
         root_sp = S.PlainFileSP(key_path(curve, root_role(ks, ks["used"])))
+        spf = p.get("sp_fail") or {}
+        self.sp_failures = {}
         if ks.get("isk"):
             isk_pub = open(key_path(ks["isk"], "isk", pub=True), "rb").read()
             ud = gen_bytes(77, ks.get("isk_user_data", 0)) or None
+            if spf.get("who") == "root":
+                root_sp = flaky_sp(root_sp, spf["n"], self.sp_failures)
             cb = S.CertBlockV21(root_certs=roots_pub, ca_flag=False, used_root_cert=ks["used"], constraints=ks.get("constraints", 0), signature_provider=root_sp, isk_cert=isk_pub, user_data=ud)
             sp = S.PlainFileSP(key_path(ks["isk"], "isk"))
             self.sign_curve = ks["isk"]
@@ -461,7 +495,16 @@ class Run:
             cb = S.CertBlockV21(root_certs=roots_pub, ca_flag=True, used_root_cert=ks["used"])
             sp = root_sp
             self.sign_curve = curve
-        cb.calculate()
+        if spf.get("who") == "container":
+            sp = flaky_sp(sp, spf["n"], self.sp_failures)
+        for _attempt in range(4):
+            try:
+                cb.calculate()
+                break
+            except S.SPSDKError:
+                if not spf or self.sp_failures.get("n", 0) > spf["n"]:
+                    raise
+                self.fault("signing_service_unreachable")  # the caller simply tries again
         self.pck = gen_bytes(p.get("pck_seed", 1), p["pck_bits"] // 8)
         self.expected_ts = p["timestamp"] if p.get("timestamp") else int(EPOCH + (CLOCK.now_us + CLOCK.wall_offset_us) / 1e6) - 946684800
         sb = S.SecureBinary31(
@@ -569,10 +612,19 @@ class Run:
                 label = f"op {k}: export #{j + 1}"
                 if not expected:
                     continue
-                try:
-                    data = sb.export()
-                except S.SPSDKError as exc:
-                    self.violation("export-raises", f"export#{min(j + 1, 2)}:{type(exc).__name__}", f"{label}: export raised {type(exc).__name__}: {exc}")
+                data = None
+                for _attempt in range(4):
+                    before = getattr(self, "sp_failures", {}).get("n", 0)
+                    try:
+                        data = sb.export()
+                        break
+                    except S.SPSDKError as exc:
+                        if getattr(self, "sp_failures", {}).get("n", 0) > before:
+                            self.fault("signing_service_unreachable")  # an injected failure: the caller tries again
+                            continue
+                        self.violation("export-raises", f"export#{min(j + 1, 2)}:{type(exc).__name__}", f"{label}: export raised {type(exc).__name__}: {exc}")
+                        break
+                if data is None:
                     continue
                 res = self.check_export(data, expected, j + 1, label)
                 exports.append((data, list(expected), res is not None))
@@ -848,6 +900,8 @@ def gen_plan(family: str, i: int, rng: random.Random, tier: str) -> dict:
     for _ in range(rng.randint(1, 6)):
         ops.append({"op": "add", "cmd": gen_cmd(rng)})
     ops.append({"op": "export"})
+    if rng.random() < 0.12:
+        plan["sp_fail"] = {"who": rng.choice(["root", "container"]) if isk else "container", "n": rng.choice([1, 1, 2])}
     if rng.random() < 0.3:
         # the configuration route: the same container described as nxpimage's configuration
         plan["via_config"] = {
